@@ -36,6 +36,8 @@ type lcReq struct {
 	k    int    // topic ref
 	arg  string // unsub flag
 	as   string // "" (the name the user normally uses) | "grp" | "chn": name form of a group/channel topic in the request
+	fault string // "" | name of a store adapter method (e.g. "TopicDelete"): the first call of that method made while this
+	// request is handled fails (zz_verif_c14d_test.go)
 }
 
 type lcSess struct {
@@ -234,6 +236,9 @@ func (ls *lcSess) reader() {
 			} else {
 				ls.curKind.Store(r.kind)
 				atomic.StoreInt32(&ls.busy, 1)
+				if r.fault != "" {
+					lcArmFaultC14d(ls, r)
+				}
 				s.dispatchRaw([]byte(ls.sc.reqJSON(ls, r)))
 				atomic.StoreInt32(&ls.busy, 0)
 			}
@@ -784,6 +789,9 @@ func (sc *lcScn) runBurst() {
 			if strings.HasPrefix(x, "as=") {
 				r.as = x[3:]
 			}
+			if strings.HasPrefix(x, "fault=") {
+				r.fault = x[6:]
+			}
 		}
 		if ls := sc.sess[si]; ls != nil && atomic.LoadInt32(&ls.dead) == 0 {
 			ls.reqCh <- r
@@ -799,6 +807,7 @@ func (sc *lcScn) runBurst() {
 	wg.Wait()
 	sc.burst = nil
 	sc.waitAndRepair()
+	lcReportFaultsC14d(sc)
 	sc.dump()
 }
 
